@@ -1,5 +1,7 @@
 import ComposeVerif.Lemmas.ShortVolume
 import ComposeVerif.Lemmas.ShortDecode
+import ComposeVerif.Lemmas.ShortPort
+import ComposeVerif.Neg.C03
 import ComposeVerif.Model.ShortTransform
 import ComposeVerif.Model.ShortDecode
 /-!
@@ -111,9 +113,6 @@ theorem parseVolume_bind_iff (s : Str) (v : Vol) (h : parseVolume s = some v) :
 /-- an empty spec is rejected -/
 theorem volume_reject_empty : parseVolume [] = none := by decide
 
-theorem scan_empty_section (c : Char) (hc : c = ':' ∨ c = NUL) (rest : Str) (v : Vol) : scan (c :: rest) [] v = none := by
-  rcases hc with h | h <;> subst h <;> simp [scan, isWindowsDrive, populate, NUL]
-
 /-- an empty section between colons is rejected (`SRC::…`) -/
 theorem volume_reject_empty_section (g : Seg) (hg : g.wf = true) (rest : Str) :
     parseVolume (g.render ++ ':' :: ':' :: rest) = none := by
@@ -174,6 +173,120 @@ theorem volume_reject_too_many_colons (s t x : Seg) (hs : s.wf = true) (ht : t.w
 
 /-- non-vacuity of the rejection theorems -/
 example : parseVolume "vol::/b".toList = none ∧ parseVolume "vol:/b:".toList = none ∧ parseVolume "vol:/b:ro:rw".toList = none := by decide
+
+
+/-! ## ports -/
+
+/-- every well-formed short port spec parses to its long form: one entry per container port, host ports paired
+index-wise (a host range for a single container port kept as a range); the order of the entries (the code sorts
+by the string "port/proto") is not part of the property -/
+theorem port_short_eq_long (a : PortSpec) (h : a.wf = true) :
+    ∃ l, parsePort a.render = some l ∧ l.Perm a.long := by
+  have hsyn := protoSyn_of_wf a h
+  have hip : ∀ i, a.ip = some i → i.wf = true := by
+    intro i hi
+    simp only [PortSpec.wf, Bool.and_eq_true] at h
+    have := h.1.2
+    simpa [hi] using this
+  have hparse : parsePort a.render = some ((sortByKey ((List.range a.cont.size).map
+        (mkMapping (ipAddr a) (protoOf a.proto) a.cont.lo.val
+          (match a.host with | none => 0 | some r => r.lo.val) (match a.host with | none => 0 | some r => r.last)
+          (a.host.isSome) (a.cont.lo.val = a.cont.last)))).map (·.cfg)) := by
+    simp only [parsePort, parsePortSpec_render a hsyn hip, portCore_wf a h, Option.map_some]
+    try rfl
+  refine ⟨_, hparse, ?_⟩
+  refine ((sortByKey_perm _).map _).trans ?_
+  rw [List.map_map]
+  have : List.map ((fun x => x.cfg) ∘ mkMapping (ipAddr a) (protoOf a.proto) a.cont.lo.val
+          (match a.host with | none => 0 | some r => r.lo.val) (match a.host with | none => 0 | some r => r.last)
+          (a.host.isSome) (a.cont.lo.val = a.cont.last)) (List.range a.cont.size) = a.long := by
+    unfold PortSpec.long
+    apply List.map_congr_left
+    intro i hi
+    exact cfg_mkMapping a h i (List.mem_range.1 hi)
+  rw [this]
+
+/-- a container port range expands to one entry per port -/
+theorem port_len (a : PortSpec) (h : a.wf = true) :
+    ∃ l, parsePort a.render = some l ∧ l.length = a.cont.size := by
+  obtain ⟨l, hl, hp⟩ := port_short_eq_long a h
+  exact ⟨l, hl, by rw [hp.length_eq]; simp [PortSpec.long]⟩
+
+/-- host ports are paired one to one with container ports when the two ranges have equal length (> 1) -/
+theorem port_pairing (a : PortSpec) (r : Range) (hr : a.host = some r) (hsz : a.cont.size ≠ 1) (i : Nat) (hi : i < a.cont.size) :
+    a.long[i]? = some { hostIP := (match a.ip with | none => [] | some i => i.addr), target := a.cont.lo.val + i,
+                        published := natToDec (r.lo.val + i), protocol := protoOf a.proto } := by
+  simp only [PortSpec.long, List.getElem?_map, List.getElem?_range hi, Option.map_some, published, hr, hsz, false_and, if_false]
+  cases a.ip <;> rfl
+
+
+
+/-- non-vacuity: `127.0.0.1:8000-8001:9-10/udp` is well-formed, has two entries, and its long form pairs 8000↦9, 8001↦10 -/
+example :
+    let a : PortSpec := ⟨some ⟨false, "127.0.0.1".toList⟩, some ⟨⟨0, 8000⟩, some ⟨0, 8001⟩⟩, ⟨⟨0, 9⟩, some ⟨0, 10⟩⟩, some "udp".toList⟩
+    a.wf = true ∧ a.cont.size = 2 := by decide
+
+/-- non-vacuity: a host range for a single container port is well-formed (`[::1]:1-3:5`) -/
+example : (PortSpec.mk (some ⟨true, "::1".toList⟩) (some ⟨⟨0, 1⟩, some ⟨0, 3⟩⟩) ⟨⟨0, 5⟩, none⟩ none).wf = true := by decide
+
+/-- an empty container section (`…:`) is rejected, whatever precedes it -/
+theorem port_nearmiss_empty_container (s : Str) : parsePort (s ++ [':']) = none := by
+  have h1 : splitOn ':' (s ++ [':']) = splitOn ':' s ++ [[]] := by
+    rw [splitOn_append_sep]; rfl
+  have h2 := splitParts_snoc_nil (splitOn ':' s) (splitOn_ne_nil _ _)
+  simp only [parsePort, parsePortSpec, h1, h2]
+  have h3 : splitProtoPort [] = ([], []) := by decide
+  simp only [h3, portCore_nil_cont]
+  cases splitHostColon (splitParts (splitOn ':' s ++ [[]])).1 <;> rfl
+
+/-- a container range that is reversed or exceeds 65535 is rejected -/
+theorem port_nearmiss_bad_container_range (a : PortSpec) (hsyn : protoSyn a = true)
+    (hip : ∀ i, a.ip = some i → i.wf = true) (hbad : a.cont.wf = false) : parsePort a.render = none := by
+  have : parsePortRange a.cont.render = none := by
+    rw [parsePortRange_render]
+    simp only [Range.wf, Bool.and_eq_false_iff, decide_eq_false_iff_not] at hbad
+    have : ¬ (a.cont.lo.val ≤ 65535 ∧ a.cont.last ≤ 65535 ∧ a.cont.lo.val ≤ a.cont.last) := by omega
+    simp [this]
+  simp [parsePort, parsePortSpec_render a hsyn hip, portCore_bad_cont _ _ _ _ this]
+
+/-- a host range that is reversed or exceeds 65535 is rejected -/
+theorem port_nearmiss_bad_host_range (a : PortSpec) (hsyn : protoSyn a = true)
+    (hip : ∀ i, a.ip = some i → i.wf = true) (r : Range) (hr : a.host = some r) (hbad : r.wf = false) :
+    parsePort a.render = none := by
+  have : parsePortRange r.render = none := by
+    rw [parsePortRange_render]
+    simp only [Range.wf, Bool.and_eq_false_iff, decide_eq_false_iff_not] at hbad
+    have : ¬ (r.lo.val ≤ 65535 ∧ r.last ≤ 65535 ∧ r.lo.val ≤ r.last) := by omega
+    simp [this]
+  have hh : hostSection a = r.render := by simp [hostSection, hr]
+  simp [parsePort, parsePortSpec_render a hsyn hip, hh, portCore_bad_host _ _ _ _ (Range.render_ne_nil r) this]
+
+/-- a protocol other than tcp / udp / sctp (any letter case) is rejected -/
+theorem port_nearmiss_bad_proto (a : PortSpec) (hsyn : protoSyn a = true)
+    (hip : ∀ i, a.ip = some i → i.wf = true) (hbad : validProto (protoOf a.proto) = false) : parsePort a.render = none := by
+  have : validProto (lower (protoRaw a)) = false := by rw [lower_protoRaw]; exact hbad
+  simp [parsePort, parsePortSpec_render a hsyn hip, portCore_bad_proto _ _ _ _ this]
+
+/-- host and container ranges of different lengths are rejected (unless the container side is a single port) -/
+theorem port_nearmiss_unequal_ranges (a : PortSpec) (hsyn : protoSyn a = true)
+    (hip : ∀ i, a.ip = some i → i.wf = true) (hc : a.cont.wf = true) (r : Range) (hr : a.host = some r) (hrw : r.wf = true)
+    (h1 : r.size ≠ a.cont.size) (h2 : a.cont.size ≠ 1) : parsePort a.render = none := by
+  simp only [Range.wf, Bool.and_eq_true, decide_eq_true_eq] at hc hrw
+  have hcc : a.cont.lo.val ≤ 65535 ∧ a.cont.last ≤ 65535 ∧ a.cont.lo.val ≤ a.cont.last := ⟨by omega, hc.2, hc.1⟩
+  have hrr : r.lo.val ≤ 65535 ∧ r.last ≤ 65535 ∧ r.lo.val ≤ r.last := ⟨by omega, hrw.2, hrw.1⟩
+  have hh : hostSection a = r.render := by simp [hostSection, hr]
+  simp only [Range.size] at h1 h2
+  have e1 : ¬ (a.cont.last - a.cont.lo.val = r.last - r.lo.val) := by omega
+  have e2 : ¬ (a.cont.last = a.cont.lo.val) := by omega
+  simp only [parsePort, parsePortSpec_render a hsyn hip, hh, portCore, Range.render_ne_nil, parsePortRange_render, hcc, hrr,
+    and_self, if_true, if_false]
+  simp [e1, e2, Range.render_ne_nil]
+
+
+/-- non-vacuity of the near-miss hypotheses: `8000-8002:80-81`, `90-80`, `65536`, `80/http` -/
+example : (Range.mk ⟨0, 8000⟩ (some ⟨0, 8002⟩)).size ≠ (Range.mk ⟨0, 80⟩ (some ⟨0, 81⟩)).size
+    ∧ (Range.mk ⟨0, 90⟩ (some ⟨0, 80⟩)).wf = false ∧ (Range.mk ⟨0, 65536⟩ none).wf = false
+    ∧ validProto (protoOf (some "http".toList)) = false := by decide
 
 /-! ## KEY[=VALUE] list vs mapping -/
 
